@@ -159,6 +159,14 @@ func fnValuesIn(v ssa.Value, depth int) []*ssa.Function {
 		for _, a := range x.Call.Args {
 			out = append(out, fnValuesIn(a, depth-1)...)
 		}
+		// a factory of the repository that returns the function value
+		if sf := staticFn(&x.Call); sf != nil && len(sf.Blocks) > 0 && sf.Signature.Results().Len() == 1 {
+			for _, b := range sf.Blocks {
+				if r, ok := b.Instrs[len(b.Instrs)-1].(*ssa.Return); ok && len(r.Results) == 1 {
+					out = append(out, fnValuesIn(r.Results[0], depth-1)...)
+				}
+			}
+		}
 		return out
 	case *ssa.Slice:
 		// variadic: slice of an alloc'd array whose elements are stored
